@@ -632,9 +632,33 @@ pub(crate) fn c17_one(ctx: &mut Ctx, item: &Item, bytes: &[u8], dmg: &str) -> R 
     }
 }
 
+/// a small generator-made file (refflac's frame writer: subframe alternatives the crate's encoder never
+/// emits, block size changing from frame to frame) as the corpus file
+fn make_gen_item(ch: &Choices) -> Option<Item> {
+    let fx = crate::scen_rd::make_foreign_fixture_sized(ch, true, true)?;
+    let rs = refflac::parse_stream(&fx.bytes, 0).ok()?;
+    probe("dmg_generator_made_file");
+    Some(Item {
+        channels: fx.pcm.channels,
+        block: rs.meta.si.max_block as usize,
+        desc: format!("generator-made file, {} frames, {} bytes, table={:?}, bits={} channels={}", rs.frames.len(), fx.bytes.len(), fx.shape, fx.pcm.bps, fx.pcm.channels),
+        bytes: fx.bytes,
+        rs,
+    })
+}
+
+pub fn run_gen(ctx: &mut Ctx) -> R {
+    run_with(ctx, true)
+}
+
 pub fn run(ctx: &mut Ctx) -> R {
+    run_with(ctx, false)
+}
+
+fn run_with(ctx: &mut Ctx, generator: bool) -> R {
     let ch = ctx.ch.clone();
-    let Some(item) = make_item(&ch, true) else {
+    let item = if generator { make_gen_item(&ch) } else { make_item(&ch, true) };
+    let Some(item) = item else {
         ctx.skip_foreign("corpus file could not be built");
         return Ok(());
     };
